@@ -151,10 +151,15 @@ class PNGModelAsp(PNGModel):
     def method(self, eng, st, v, meth, args, kw, node, recv_expr=None):
         if meth == "nodes" and not args and set(kw) == {"data"} and isinstance(kw["data"], E._StrLit) and kw["data"].s == "kind":
             return _NodesData(v, "kind")
+        if meth in ("predecessors", "successors"):
+            # networkx raises NetworkXError for a node that is not in the graph
+            eng.oblige(st, f"{meth}.node_present@{node.lineno}", PNGraph.nodes(v.t)[args[0].t], node.lineno, kind="safety")
         if meth == "predecessors":
             return Val(TSet(TPNode), preds_set(v.t, args[0].t))
         if meth == "successors":
             return Val(TSet(TPNode), succs_set(v.t, args[0].t))
+        if meth == "copy" and not args and not kw:
+            return v           # graphs are values: a copy is the same value, the original is never affected by later updates
         return super().method(eng, st, v, meth, args, kw, node, recv_expr)
 
 
@@ -295,6 +300,12 @@ def install(reg):
         return None
     reg.add_hook("contains", contains)
 
+    def to_set(eng, st, v, node):
+        if isinstance(v, _ListOfSet):
+            return Val(TSet(TPNode), v.set)
+        return None
+    reg.add_hook("to_set", to_set)
+
     def size_of(eng, st, v, node):
         if isinstance(v, _ListOfSet):
             # an enumeration without repetition: its length is the cardinality of the set (0 iff the set is empty)
@@ -308,6 +319,8 @@ def install(reg):
     def iterate(eng, st, coll, node):
         if isinstance(coll, _NodesData):
             return coll
+        if isinstance(coll, _ListOfSet):
+            return E._SetIter(Val(TSet(TPNode), coll.set))      # each element once, arbitrary order
         return None
     reg.add_hook("iterate", iterate)
 
@@ -452,3 +465,60 @@ def install(reg):
             return Val(LNm, SortedNames(v.t))
         return None
     reg.add_hook("sorted", sorted_names)
+
+
+# ---------------------------------------------------------------------- grounding / solving (assumed clingo behaviour)
+from .pnmodel import TModel
+LModels = TList(TModel)
+EnumModels = z3.Function("EnumModels", Ctl, LModels.sort())     # the enumeration clingo produces for this program and enumeration mode
+TRUSTED["clingo.Control.ground / solve(yield_=True) / SolveHandle"] = (
+    "ground() does not change the meaning of the program; solve(yield_=True) returns a SolveHandle (also for unsatisfiable programs) "
+    "whose iteration yields the models of the enumeration EnumModels(program, mode), each once, in the solver's order; "
+    "a solver failure is a RuntimeError; leaving the with-block only releases the handle")
+
+
+class _SolveHandle(Val):
+    def __init__(self, ctl):
+        self.ctl = ctl
+        self.ty = THelper("solve-handle")
+        self.t = None
+
+
+class CtlModel2(CtlModel):
+    def method(self, eng, st, v, meth, args, kw, node, recv_expr=None):
+        if meth == "ground":
+            if args and not isinstance(args[0], E._PyList):
+                raise OutOfSubset("Control.ground(<parts>) of an unexpected shape")
+            return NONE
+        if meth == "solve":
+            if args or set(kw) != {"yield_"} or not z3.is_true(z3.simplify(eng.truth(kw["yield_"]))):
+                raise OutOfSubset("Control.solve without yield_=True")
+            fs = st.clone()
+            eng.fork_raise(fs, "RuntimeError")
+            st.ghost["solved_ctl"] = v.t          # the program that is actually solved (the contract speaks about it)
+            return _SolveHandle(v)
+        return super().method(eng, st, v, meth, args, kw, node, recv_expr)
+
+
+_install_asp1 = install
+
+
+def install(reg):
+    _install_asp1(reg)
+    reg.models = [(p, (CtlModel2() if type(m) is CtlModel else m)) for p, m in reg.models]
+
+    def isinst(eng, st, v, tnode):
+        if isinstance(tnode, ast.Name) and tnode.id == "SolveHandle":
+            return vbool(isinstance(v, _SolveHandle))
+        if isinstance(tnode, ast.Name) and tnode.id == "DiGraph":
+            return vbool(v.ty == TPNG)
+        return None
+    reg.add_hook("isinstance", isinst)
+
+    def with_enter(eng, st, cm, node):
+        if isinstance(cm, _SolveHandle):
+            ms = Val(LModels, EnumModels(cm.ctl.t))
+            st.assume(LModels.len(ms.t) >= 0)
+            return ms
+        return None
+    reg.add_hook("with_enter", with_enter)
